@@ -186,6 +186,23 @@ func init() {
 		return true
 	})
 
+	reg("math.Float32bits", func(ex *Exec, st *State, fv FuncV, args []Value, res ssa.Value, at ssa.Instruction) bool {
+		f := args[0].(FloatV)
+		if f.w != 32 {
+			fail("Float32bits of a float made from %d bits", f.w)
+		}
+		setRes(st, res, f.bits)
+		return true
+	})
+	reg("math.Float64bits", func(ex *Exec, st *State, fv FuncV, args []Value, res ssa.Value, at ssa.Instruction) bool {
+		f := args[0].(FloatV)
+		if f.w != 64 {
+			fail("Float64bits of a float made from %d bits", f.w)
+		}
+		setRes(st, res, f.bits)
+		return true
+	})
+
 	// ---- net -------------------------------------------------------------------
 	reg("(net.IP).To4", func(ex *Exec, st *State, fv FuncV, args []Value, res ssa.Value, at ssa.Instruction) bool {
 		ip := args[0].(SliceV)
